@@ -61,6 +61,27 @@ INFO = {
  "C14-d": ("same change as C03-d (wake-up sent to the stopped helper), reached through the polling worker callback", "per-thread helper freed after two handles were taken, default helper asleep"),
  "C18-c": ("cds_list_replace_rcu(): node published before its next pointer is set", "reader on the predecessor between the two stores"),
  "C18-d": ("cds_hlist_entry_safe() evaluates its pointer argument twice (two rcu_dereference loads in the _2 iterator)", "tail node removed between the two loads"),
+ "C04-c": ("rcu_barrier(): 'futex = -1' with a plain store and only a write barrier before reading barrier_count (store-buffering lost wake-up)", "x86-TSO; the last marker callback reads futex == 0 while the waiter's store is still buffered"),
+ "C04-d": ("_call_rcu_data_free(): helper unlinked from the helper list at the start (before the unlock/relock gap of the leftover hand-over)", "rcu_barrier() taking call_rcu_mutex inside that gap while the freed helper still owns callbacks"),
+ "C06-c": ("_cds_lfht_gc_bucket(): unlink by compare-then-store instead of cmpxchg", "another updater changing the predecessor's next (replace/del/insert) inside the two-instruction window"),
+ "C06-d": ("same change as C05-d/C08-d (replace retry keeps a stale successor)", "cmpxchg on old->next failing once because a neighbour was inserted"),
+ "C07-c": ("_cds_lfht_del(): REMOVAL_OWNER taken by load, test, store instead of xchg", "two deleters of one node inside the window: both return 0"),
+ "C07-d": ("partition_resize_helper(): early return whenever some helper had been started, leftovers after an EAGAIN on a later helper are skipped", "partitioned shrink with pthread_create EAGAIN on a non-first helper; the level is freed with bucket nodes still linked"),
+ "C08-c": ("same change as C05-c (REMOVED flag by plain store); with one application thread it needs the AUTO_RESIZE worker as the second thread", "del of a node while the resize worker links a bucket node behind it (caught by the concurrent checks C05/C06/C09, not by the sequential C08 target, which synchronises with the worker)"),
+ "C08-d": ("_cds_lfht_replace(): new_node->next assigned once before the retry loop", "replace through a stale iterator after an add directly behind the old node (sequential)"),
+ "C09-d": ("partition_resize_helper(): after EAGAIN only the failed helper's partition is processed, not all leftovers", "partitioned resize with EAGAIN on a helper that is not the last"),
+ "C13-c": ("_defer_rcu(): full barrier between the head store and the futex load weakened to a write barrier (lost wake-up of the reclaimer)", "x86-TSO; defer_rcu() within the reclaimer's awake-to-asleep transition, then no further API call"),
+ "C13-d": ("wait_defer(): stop flag tested before the futex is decremented", "last thread unregistering exactly when the reclaimer enters wait_defer(): pthread_join never returns"),
+ "C15-c": ("urcu-qsbr thread_offline: ctr = 0 stored without the full barrier before reading 'waiting' (lost wake-up at unregister)", "x86-TSO; reader unregisters while the updater arms its futex"),
+ "C15-d": ("urcu-bp register: 'already registered by a handler' re-check moved before signals are blocked", "signal whose handler takes the read lock between the check and the sigprocmask of the thread's first read-side call: the thread is registered twice, one slot leaks"),
+ "C16-c": ("call_rcu helper pause: PAUSED published before rcu_unregister_thread()", "fork while a paused helper is still inside its unregistration"),
+ "C16-d": ("cds_lfht_after_fork_child(): early return without unlocking cds_lfht_fork_mutex when no work queue exists yet", "fork while another thread is inside the process's first cds_lfht_new(); the child then creates a table"),
+ "C17-c": ("same change as C10-c (late NULL store in the last-node dequeue)", "dequeuer suspended between the tail cmpxchg and the store while an enqueue completes (caught by C10; the C17 solo thread is the only consumer)"),
+ "C17-d": ("_cds_lfht_add(): does not help unlinking a logically deleted node that has no removal owner yet, spins instead", "del suspended between flagging and unlinking; add into the same bucket"),
+ "C19-c": ("urcu-mb read_lock: full barrier after the reader-word store weakened to a compiler barrier", "x86-TSO; outermost rcu_read_lock() (in a handler or not) racing the updater's first scan"),
+ "C19-d": ("urcu-bp thread exit: the TLS reader pointer is cleared only after the signal mask is restored", "signal handler using the read side on an exiting thread between unmask and the store: its section is invisible to grace periods"),
+ "C20-c": ("x86 uatomic_add_return/sub_return: operand 0 takes a load-only fast path (no barrier)", "store-buffer litmus with add_return(&x, 0)"),
+ "C20-d": ("x86 uatomic_cmpxchg: fails fast without the locked instruction and returns a second load", "the expected value written back between the two loads: false success (broken test-and-set lock)"),
 }
 rows = []
 for d in sorted(glob.glob(os.path.join(V, "seeded", "C??-?"))):
